@@ -259,4 +259,59 @@ theorem C11_engine_exists (kb : FKB ι α) (i j : ι) (rest : List ι) (s : FSta
   rw [this, C11_exists_lower_unit _ _ hprev, List.map_map]
   rfl
 
+/-! ## non-vacuity and concrete numbers over ℚ -/
+
+/-- three TRUE instances: the activation itself says TRUE … -/
+example : qUp true [(⟨1, 1⟩ : Bounds ℚ), ⟨1, 1⟩, ⟨1, 1⟩] = ⟨1, 1⟩ := by
+  rw [C11_qUp_forall]; simp [Lconj, clamp01]
+
+/-- … but the Forall (not fully grounded) stays UNKNOWN -/
+example : (aggregate .upper ⟨0, 1⟩ (qUp true [(⟨1, 1⟩ : Bounds ℚ), ⟨1, 1⟩, ⟨1, 1⟩])).1 = ⟨0, 1⟩ :=
+  C11_all_true_stays_unknown _ (by simp)
+
+/-- graded instances: `1 - (1/2 + 1/2) = 0`, `1 - (1/4 + 1/2) = 1/4` -/
+example : qUp true [(⟨1/2, 3/4⟩ : Bounds ℚ), ⟨1/2, 1/2⟩] = ⟨0, 1/4⟩ := by
+  rw [C11_qUp_forall]; simp [Lconj, clamp01]; norm_num
+
+example : qUp false [(⟨1/4, 1/2⟩ : Bounds ℚ), ⟨1/4, 1/4⟩] = ⟨1/2, 3/4⟩ := by
+  rw [C11_qUp_exists]; simp [Ldisj, clamp01]; norm_num
+
+/-- `0 = P(x)`, `1 = ∀x P(x)`, `2 = ∃x P(x)`, `3 = Q(x,y)`, `4 = ∀y Q(x,y)` (free variable `x`,
+slot 0 of the body's variable tuple) -/
+def exKB11 : FKB Nat ℚ := fun i =>
+  match i with
+  | 1 => { kind := .all, ops := [0], bias := 1, alpha := 1, world := ⟨0, 1⟩, free := [] }
+  | 2 => { kind := .ex, ops := [0], bias := 1, alpha := 1, world := ⟨0, 1⟩, free := [] }
+  | 4 => { kind := .all, ops := [3], bias := 1, alpha := 1, world := ⟨0, 1⟩, free := [0] }
+  | _ => { kind := .pred, bias := 1, alpha := 1, world := ⟨0, 1⟩ }
+
+/-- `P(0), P(1)` TRUE, `P(2)` UNKNOWN; `Q(0,0)` TRUE, `Q(0,1)` FALSE, `Q(1,0)` TRUE; the
+quantifiers have no row yet (they are created at the world default) -/
+def exS11 : FState Nat ℚ :=
+  ⟨[(0, [⟨[0], ⟨1, 1⟩, ⟨1, 1⟩⟩, ⟨[1], ⟨1, 1⟩, ⟨1, 1⟩⟩, ⟨[2], ⟨0, 1⟩, ⟨0, 1⟩⟩]),
+    (3, [⟨[0, 0], ⟨1, 1⟩, ⟨1, 1⟩⟩, ⟨[0, 1], ⟨0, 0⟩, ⟨0, 0⟩⟩, ⟨[1, 0], ⟨1, 1⟩, ⟨1, 1⟩⟩])]⟩
+
+/-- per grounding of the free variable: `x = 0` has the FALSE instance `Q(0,1)` — refuted -/
+example : Table.getD (exKB11 4).world ((fUpQuant exKB11 4 exS11).1.get 4) [0] = ⟨0, 0⟩ := by
+  rw [C11_engine_forall exKB11 4 3 [] exS11 rfl rfl rfl [0] (by decide)
+    (by simp [exKB11, exS11, FState.get, Table.getD, Table.find?, InUnit])]
+  simp [exKB11, exS11, FState.get, Table.getD, Table.find?, groupKey, Lconj, clamp01]
+
+/-- `x = 1` has only the TRUE instance `Q(1,0)` — not proved, stays UNKNOWN -/
+example : Table.getD (exKB11 4).world ((fUpQuant exKB11 4 exS11).1.get 4) [1] = ⟨0, 1⟩ := by
+  rw [C11_engine_forall exKB11 4 3 [] exS11 rfl rfl rfl [1] (by decide)
+    (by simp [exKB11, exS11, FState.get, Table.getD, Table.find?, InUnit])]
+  simp [exKB11, exS11, FState.get, Table.getD, Table.find?, groupKey, Lconj, clamp01]
+
+/-- `∀x P(x)` with instances TRUE, TRUE, UNKNOWN stays UNKNOWN -/
+example : Table.getD (exKB11 1).world ((fUpQuant exKB11 1 exS11).1.get 1) [] = ⟨0, 1⟩ := by
+  rw [C11_engine_forall exKB11 1 0 [] exS11 rfl rfl rfl [] (by decide)
+    (by simp [exKB11, exS11, FState.get, Table.getD, Table.find?, InUnit])]
+  simp [exKB11, exS11, FState.get, Table.getD, Table.find?, groupKey, Lconj, clamp01]
+
+/-- `∃x P(x)` is proved by one TRUE instance -/
+example : Table.getD (exKB11 2).world ((fUpQuant exKB11 2 exS11).1.get 2) [] = ⟨1, 1⟩ := by
+  rw [C11_engine_exists exKB11 2 0 [] exS11 rfl rfl rfl [] (by decide)
+    (by simp [exKB11, exS11, FState.get, Table.getD, Table.find?, InUnit])]
+  simp [exKB11, exS11, FState.get, Table.getD, Table.find?, groupKey, Ldisj, clamp01]
 end LNN
